@@ -236,13 +236,22 @@ class Honest:
             for i in range(n_steps):
                 if tamper in file_tampers and tamper_at == i:
                     self.tamper_applied = apply_file_tamper(rng, self.work, tamper, opts)
-                gpg = W.gpg_available() and rng.random() < 0.12
-                k = W.gpg_key(rng.choice(["no_sub", "no_sub2"])) if gpg else rng.choice([x for x in pool if x is not self.owner])
+                gpg = W.gpg_available() and rng.random() < float(os.environ.get("VERIF_GPG_RATE", "0.12"))
+                k = W.gpg_key(rng.choice(["no_sub", "no_sub2", "one_sub"])) if gpg else rng.choice([x for x in pool if x is not self.owner])
+                # the key id the signature carries (and the link file is named after): the key's own, or - for a gpg key
+                # with a signing subkey - that subkey's
+                sig_kid = k.keyid
+                if gpg:
+                    subs = [x for x in (k.pub.get("subkeys") or {}) if x in W.SIGNING_SUBKEYS]
+                    if subs:
+                        sig_kid = subs[0]
                 # sometimes the step authorises a second functionary, listed first, who does not take part
                 extra = None
                 if rng.random() < 0.1 or (tamper == "link_forge" and i == n_steps - 1):
                     extra = rng.choice([x for x in pool if x is not self.owner and x is not k])
-                sign_kw = {"gpg_keyid": k.gpg_id, "gpg_home": k.gpg_home} if gpg else {"signer": k.signer}
+                # gpg accepts a key id in upper case and as the 16-digit long id: the same key, the same signature
+                spell = rng.choice([str, str, str.upper, lambda x: x[-16:], lambda x: x[-16:].upper()])
+                sign_kw = {"gpg_keyid": spell(k.gpg_id), "gpg_home": k.gpg_home} if gpg else {"signer": k.signer}
                 dsse = (not gpg) and rng.random() < 0.5
                 ops, present = gen_ops(rng, covered(snapshot(self.work), dict(opts, lstrip=None)), rng.randrange(1, 4))
                 cmd = [sys.executable, "-B", STEPPER] + (["cd:" + self.work] if opts["base"] else []) + ops
@@ -272,8 +281,12 @@ class Honest:
                         md = None
                 after = snapshot(self.work)
                 self.steps.append({"name": name, "key": k, "extra": extra, "dsse": dsse, "mode": mode, "streams": streams, "cmd": cmd,
-                                   "before": before, "after": after, "returned": md,
-                                   "file": os.path.join(self.links, "%s.%s.link" % (name, k.keyid[:8]))})
+                                   "before": before, "after": after, "returned": md, "sig_keyid": sig_kid,
+                                   "gpg_keyid_as_given": sign_kw.get("gpg_keyid"),
+                                   # in_toto_run names the file after the key id in the signature, record stop after the
+                                   # key it was given (both are found by the verifier: it looks under the ids of an
+                                   # authorised key and of its subkeys)
+                                   "file": os.path.join(self.links, "%s.%s.link" % (name, (k.keyid if mode == "record" else sig_kid)[:8]))})
             if tamper in file_tampers and tamper_at >= n_steps:
                 self.tamper_applied = apply_file_tamper(rng, self.work, tamper, opts)
             if tamper == "link_forge":
